@@ -28,7 +28,7 @@
 #include <unistd.h>
 
 namespace ops {
-MSSMNoFV_onshell* shared_mssm[2]; THDM* shared_thdm[2]; std::string slha_text[3];
+MSSMNoFV_onshell* shared_mssm[2]; THDM* shared_thdm[2]; std::string slha_text[5];
 }
 struct CanaryState { double scratch; int init; double memo; };
 extern CanaryState canary_state;
